@@ -75,6 +75,11 @@ func checkC06(c *Ctx) {
 			"ConstantTimeCompare", p.isCallTo(0, nil, "crypto/subtle.ConstantTimeCompare"))
 		c.depRule(p, "C06.flagdef", "flag depends on the key and on the low-order table", iv, sinkResult(),
 			"param:k", "global:"+pk.pkg+".lowOrderPoints", "call:crypto/subtle.ConstantTimeCompare")
+		// a value that matches no table entry is valid: nothing else (e.g. canonicity of the encoding) may make
+		// Shared report failure, non-canonical encodings of ordinary points must keep working (the converse,
+		// a match makes it invalid, needs the value of an OR accumulated in a loop and is not decided)
+		c.evalAcceptRuleSpec(p, "C06.flagdef", "a value equal to none of the low-order points is reported valid", iv, nil,
+			[]Assume{calleeAssume(latInt(0), -1, "crypto/subtle.ConstantTimeCompare")}, nil, true, succTrue(0))
 		if pk.mask > 0 {
 			c.orderRule(p, "C06.flagdef", "bit 255 masked before validation", sh,
 				"store of (byte & 0x7f)", func(in ssa.Instruction) bool {
